@@ -1,7 +1,764 @@
+// Package c22: textual address encodings of common/address.go (base58 with version byte and
+// double-SHA-256 checksum, reversed hex).
+//
+// Correspondence: Address.ToBase58 / AddressFromBase58 / ToHexString / AddressFromHexString /
+// AddressParseFromBytes, base58.BitcoinEncoding.Encode/Decode and the math/big conversions, on
+// random and boundary addresses, single-character edits of valid strings, structured corruptions
+// (other version byte, other checksum, other payload length, extra leading '1's), random strings
+// over the alphabet and outside it, and strings around the 2048-character guard.
+//
+// Oracle (on the implementation only): every address decodes from its own encoding; whatever
+// AddressFromBase58 accepts re-encodes to exactly the accepted string; no edit of enc(a) decodes
+// to a; encodings have 34 characters and start with 'A'; hex round trip and canonicity; no panic.
 package c22
 
-import "verif/harness/hx"
+import (
+	"bytes"
+	"crypto/sha256"
+	"encoding/hex"
+	"encoding/json"
+	"fmt"
+	"math/big"
+	"strings"
+
+	base58 "github.com/itchyny/base58-go"
+	"github.com/ontio/ontology/common"
+
+	"verif/harness/hx"
+)
 
 func init() { hx.Register("C22", Run) }
 
-func Run(c *hx.Ctx) { c.CoqModule("Corr.C22") }
+const alphabet = "123456789ABCDEFGHJKLMNPQRSTUVWXYZabcdefghijkmnopqrstuvwxyz"
+
+// input is the replayable description of one probe.
+type input struct {
+	Kind string `json:"kind"` // b58 | addr | hex | hexaddr | parse | enc | dec | big | bigstr
+	S    string `json:"s"`    // hex of the bytes of the string / address / buffer
+	Note string `json:"note,omitempty"`
+}
+
+type drv struct {
+	c       *hx.Ctx
+	caseCap map[string]int // remaining Coq cases per kind (the oracle always runs)
+}
+
+func (d *drv) wantCase(kind string) bool {
+	if n, ok := d.caseCap[kind]; ok {
+		if n <= 0 {
+			return false
+		}
+		d.caseCap[kind] = n - 1
+	}
+	return true
+}
+
+// ---------- independent helpers (do not use the code under test) ----------
+
+// refEncode is a textbook base-58 conversion of a byte string read as a big-endian number, with no
+// special treatment of leading zero bytes (the scheme of address.go drops them as well).
+func refEncode(payload []byte) string {
+	n := new(big.Int).SetBytes(payload)
+	if n.Sign() == 0 {
+		return ""
+	}
+	var out []byte
+	r := big.NewInt(58)
+	m := new(big.Int)
+	for n.Sign() > 0 {
+		n.DivMod(n, r, m)
+		out = append(out, alphabet[m.Int64()])
+	}
+	for i, j := 0, len(out)-1; i < j; i, j = i+1, j-1 {
+		out[i], out[j] = out[j], out[i]
+	}
+	return string(out)
+}
+
+// refDecode: value of s in base 58 as big-endian bytes; ok=false if a character is foreign.
+func refDecode(s string) ([]byte, bool) {
+	n := new(big.Int)
+	r := big.NewInt(58)
+	for i := 0; i < len(s); i++ {
+		k := strings.IndexByte(alphabet, s[i])
+		if k < 0 {
+			return nil, false
+		}
+		n.Mul(n, r)
+		n.Add(n, big.NewInt(int64(k)))
+	}
+	return n.Bytes(), true
+}
+
+func sum(b []byte) []byte { h := sha256.Sum256(b); return h[:] }
+
+func refPayload(ver byte, a []byte) []byte {
+	data := append([]byte{ver}, a...)
+	chk := sum(sum(data))
+	return append(data, chk[:4]...)
+}
+
+// table of the hash values a decode of s (or an encode of a) can ask for: H(23::a) and H(H(23::a)).
+func tableFor(addrs ...[]byte) string {
+	var items []string
+	seen := map[string]bool{}
+	for _, a := range addrs {
+		data := append([]byte{23}, a...)
+		if seen[string(data)] {
+			continue
+		}
+		seen[string(data)] = true
+		h1 := sum(data)
+		h2 := sum(h1)
+		items = append(items, fmt.Sprintf("(%s, %s)", hx.CoqBytes(data), hx.CoqBytes(h1)),
+			fmt.Sprintf("(%s, %s)", hx.CoqBytes(h1), hx.CoqBytes(h2)))
+	}
+	return hx.CoqList(items)
+}
+
+// candidate address a decode of s would re-encode, computed independently
+func candidate(s string) [][]byte {
+	buf, ok := refDecode(s)
+	if !ok || len(buf) < 2 {
+		return nil
+	}
+	hi := 21
+	if len(buf) < hi {
+		hi = len(buf)
+	}
+	return [][]byte{append([]byte{}, buf[1:hi]...)}
+}
+
+func errEnum(err error) string {
+	m := err.Error()
+	switch {
+	case m == "invalid address":
+		return "AErr EInvalid"
+	case strings.HasPrefix(m, "invalid character"):
+		return "AErr EBadChar"
+	case m == "wrong encoded address":
+		return "AErr EWrong"
+	case strings.Contains(m, "AddressParseFromBytes"):
+		return "AErr EParseLen"
+	case strings.Contains(m, "decode encoded verify failed"):
+		return "AErr EVerify"
+	}
+	return "AUnknownErr"
+}
+
+// ---------- probes ----------
+
+// probeAddr: encode, decode back, shape (oracle + cases).
+func (d *drv) probeAddr(a []byte, note string, sha bool) string {
+	c := d.c
+	in := input{Kind: "addr", S: hx.Hex(a), Note: note}
+	var addr common.Address
+	copy(addr[:], a)
+	var enc string
+	var back common.Address
+	var err error
+	c.Eval()
+	p, msg := hx.Recover(func() {
+		enc = addr.ToBase58()
+		back, err = common.AddressFromBase58(enc)
+	})
+	if p {
+		c.Fail("b58:panic", "ToBase58/AddressFromBase58 panicked on an address", in, msg, "no panic")
+		return ""
+	}
+	c.Count("addr:" + note)
+	if err != nil || back != addr {
+		c.Fail("b58:roundtrip", "an address does not decode from its own base58 encoding", in,
+			map[string]interface{}{"encoded": enc, "err": fmt.Sprint(err), "decoded": hx.Hex(back[:])}, "AddressFromBase58(a.ToBase58()) == a")
+	}
+	if len(enc) != 34 || enc[0] != 'A' {
+		c.Fail("b58:shape", "an encoded address is not 34 characters starting with 'A'", in, enc, "34 characters, first 'A'")
+	}
+	if want := refEncode(refPayload(23, a)); enc != want {
+		c.Fail("b58:encoding", "ToBase58 is not base58(23 || address || sha256d[0:4])", in, enc, want)
+	}
+	c.Nontrivial("addr" + in.S)
+	c.Sample(map[string]interface{}{"kind": "addr:" + note, "addr": in.S, "base58": enc})
+	if sha {
+		if d.wantCase("sha") {
+			c.Case(fmt.Sprintf("CToSha %s %s", hx.CoqBytes(a), hx.CoqBytes([]byte(enc))), in)
+		}
+	} else if d.wantCase("to") {
+		c.Case(fmt.Sprintf("CTo %s %s %s", hx.CoqBytes(a), tableFor(a), hx.CoqBytes([]byte(enc))), in)
+	}
+	return enc
+}
+
+// probeStr: AddressFromBase58 on an arbitrary string. orig (may be nil) is the address whose
+// encoding s was derived from by a corruption: s must then not decode to orig.
+func (d *drv) probeStr(s string, kind string, orig []byte, sha bool) {
+	c := d.c
+	in := input{Kind: "b58", S: hx.Hex([]byte(s)), Note: kind}
+	var got common.Address
+	var err error
+	c.Eval()
+	p, msg := hx.Recover(func() { got, err = common.AddressFromBase58(s) })
+	if p {
+		c.Fail("b58:panic", "AddressFromBase58 panicked", in, msg, "an address or an error")
+		return
+	}
+	c.Count("str:" + kind)
+	var res string
+	if err == nil {
+		c.Count("str-result:accepted")
+		res = "AOk " + hx.CoqBytes(got[:])
+		// canonical: what is accepted is exactly the encoding of the result
+		var re string
+		hx.Recover(func() { re = got.ToBase58() })
+		if re != s || refEncode(refPayload(23, got[:])) != s {
+			c.Fail("b58:accepts-noncanonical", "a string that is not the canonical encoding of any address is accepted", in,
+				map[string]interface{}{"decoded": hx.Hex(got[:]), "canonical": re}, "error")
+		}
+		if orig != nil && bytes.Equal(orig, got[:]) {
+			c.Fail("b58:accepts-corrupted", "a corrupted encoding decodes to the original address", in,
+				map[string]interface{}{"decoded": hx.Hex(got[:])}, "error")
+		}
+	} else {
+		res = errEnum(err)
+		c.Count("str-result:" + strings.TrimPrefix(res, "AErr "))
+		if got != common.ADDRESS_EMPTY {
+			c.Fail("b58:error-with-value", "an error is returned together with a non-empty address", in, hx.Hex(got[:]), "ADDRESS_EMPTY")
+		}
+	}
+	if len(s) > 0 && len(s) < 60 {
+		c.Nontrivial("str" + in.S)
+	}
+	if len(s) < 60 {
+		c.Sample(map[string]interface{}{"kind": "str:" + kind, "string": s, "result": res})
+	}
+	if sha {
+		if d.wantCase("sha") {
+			c.Case(fmt.Sprintf("CFromSha %s (%s)", hx.CoqBytes([]byte(s)), res), in)
+		}
+		return
+	}
+	if d.wantCase(kind) {
+		c.Case(fmt.Sprintf("CFrom %s %s (%s)", hx.CoqBytes([]byte(s)), tableFor(candidate(s)...), res), in)
+	}
+}
+
+func hexErrEnum(err error) string {
+	if err == hex.ErrLength {
+		return "HErr HErrLength"
+	}
+	if e, ok := err.(hex.InvalidByteError); ok {
+		return fmt.Sprintf("HErr (HErrChar %d)", byte(e))
+	}
+	if strings.Contains(err.Error(), "AddressParseFromBytes") {
+		return "HErr HParseLen"
+	}
+	return "HUnknownErr"
+}
+
+func (d *drv) probeHexAddr(a []byte) string {
+	c := d.c
+	in := input{Kind: "hexaddr", S: hx.Hex(a)}
+	var addr, back common.Address
+	copy(addr[:], a)
+	var hs string
+	var err error
+	c.Eval()
+	p, msg := hx.Recover(func() {
+		hs = addr.ToHexString()
+		back, err = common.AddressFromHexString(hs)
+	})
+	if p {
+		c.Fail("hex:panic", "ToHexString/AddressFromHexString panicked", in, msg, "no panic")
+		return ""
+	}
+	c.Count("hexaddr")
+	if err != nil || back != addr {
+		c.Fail("hex:roundtrip", "an address does not decode from its own hex string", in,
+			map[string]interface{}{"hex": hs, "err": fmt.Sprint(err), "decoded": hx.Hex(back[:])}, "AddressFromHexString(a.ToHexString()) == a")
+	}
+	rev := make([]byte, len(a))
+	for i := range a {
+		rev[len(a)-1-i] = a[i]
+	}
+	if hs != hex.EncodeToString(rev) {
+		c.Fail("hex:encoding", "ToHexString is not the lower-case hex of the reversed address", in, hs, hex.EncodeToString(rev))
+	}
+	if d.wantCase("hexto") {
+		c.Case(fmt.Sprintf("CHexTo %s %s", hx.CoqBytes(a), hx.CoqBytes([]byte(hs))), in)
+	}
+	return hs
+}
+
+func (d *drv) probeHexStr(s string, kind string) {
+	c := d.c
+	in := input{Kind: "hex", S: hx.Hex([]byte(s)), Note: kind}
+	var got common.Address
+	var err error
+	c.Eval()
+	p, msg := hx.Recover(func() { got, err = common.AddressFromHexString(s) })
+	if p {
+		c.Fail("hex:panic", "AddressFromHexString panicked", in, msg, "an address or an error")
+		return
+	}
+	c.Count("hexstr:" + kind)
+	var res string
+	if err == nil {
+		res = "HOk " + hx.CoqBytes(got[:])
+		if got.ToHexString() != strings.ToLower(s) || len(s) != 40 {
+			c.Fail("hex:accepts-noncanonical", "a string that is not the 40-digit hex of the address is accepted", in,
+				map[string]interface{}{"decoded": hx.Hex(got[:]), "canonical": got.ToHexString()}, "error")
+		}
+	} else {
+		res = hexErrEnum(err)
+		if got != common.ADDRESS_EMPTY {
+			c.Fail("hex:error-with-value", "an error is returned together with a non-empty address", in, hx.Hex(got[:]), "ADDRESS_EMPTY")
+		}
+	}
+	c.Count("hexstr-result:" + strings.Fields(strings.TrimPrefix(strings.TrimPrefix(res, "HErr "), "("))[0])
+	c.Nontrivial("hex" + in.S)
+	if d.wantCase("hexfrom") {
+		c.Case(fmt.Sprintf("CHexFrom %s (%s)", hx.CoqBytes([]byte(s)), res), in)
+	}
+}
+
+func (d *drv) probeParse(f []byte) {
+	c := d.c
+	in := input{Kind: "parse", S: hx.Hex(f)}
+	c.Eval()
+	a, err := common.AddressParseFromBytes(f)
+	c.Count(fmt.Sprintf("parse:len=%d", len(f)))
+	res := ""
+	if err == nil {
+		res = "AOk " + hx.CoqBytes(a[:])
+		if len(f) != common.ADDR_LEN || !bytes.Equal(a[:], f) {
+			c.Fail("parse:wrong", "AddressParseFromBytes accepted a buffer that is not the address", in, hx.Hex(a[:]), "error unless 20 bytes")
+		}
+	} else {
+		res = errEnum(err)
+		if len(f) == common.ADDR_LEN {
+			c.Fail("parse:rejects", "AddressParseFromBytes rejects a 20-byte buffer", in, err.Error(), "the address")
+		}
+	}
+	c.Case(fmt.Sprintf("CParse %s (%s)", hx.CoqBytes(f), res), in)
+}
+
+func optBytes(b []byte, err error) string {
+	if err != nil {
+		return "None"
+	}
+	return "(Some " + hx.CoqBytes(b) + ")"
+}
+
+// the base58 package and math/big directly (model parts below the address functions)
+func (d *drv) probeLib(kind string, s []byte) {
+	c := d.c
+	in := input{Kind: kind, S: hx.Hex(s)}
+	c.Eval()
+	c.Count("lib:" + kind)
+	switch kind {
+	case "enc":
+		var out []byte
+		var err error
+		if p, msg := hx.Recover(func() { out, err = base58.BitcoinEncoding.Encode(s) }); p {
+			c.Fail("b58:panic", "base58 Encode panicked", in, msg, nil)
+			return
+		}
+		c.Case(fmt.Sprintf("CB58Enc %s %s", hx.CoqBytes(s), optBytes(out, err)), in)
+	case "dec":
+		var out []byte
+		var err error
+		if p, msg := hx.Recover(func() { out, err = base58.BitcoinEncoding.Decode(s) }); p {
+			c.Fail("b58:panic", "base58 Decode panicked", in, msg, nil)
+			return
+		}
+		c.Case(fmt.Sprintf("CB58Dec %s %s", hx.CoqBytes(s), optBytes(out, err)), in)
+	case "big":
+		x := new(big.Int).SetBytes(s)
+		c.Case(fmt.Sprintf("CBig %s %s %s", hx.CoqBytes(s), hx.CoqBytes([]byte(x.String())), hx.CoqBytes(x.Bytes())), in)
+	case "bigstr":
+		x, ok := new(big.Int).SetString(string(s), 10)
+		r := "None"
+		if ok {
+			r = "(Some " + hx.CoqBytes([]byte(x.String())) + ")"
+		}
+		c.Case(fmt.Sprintf("CBigStr %s %s", hx.CoqBytes(s), r), in)
+	}
+}
+
+// ---------- generators ----------
+
+func (d *drv) randAddr() []byte {
+	c := d.c
+	a := c.Bytes(20)
+	switch c.Intn(8) {
+	case 0: // leading zero bytes
+		for i := 0; i < 1+c.Intn(19); i++ {
+			a[i] = 0
+		}
+	case 1: // trailing zero bytes
+		for i := 0; i < 1+c.Intn(19); i++ {
+			a[19-i] = 0
+		}
+	case 2:
+		for i := range a {
+			a[i] = 0xff
+		}
+		a[c.Intn(20)] = byte(c.Intn(256))
+	}
+	return a
+}
+
+func (d *drv) randAlpha(n int) string {
+	b := make([]byte, n)
+	for i := range b {
+		b[i] = alphabet[d.c.Intn(58)]
+	}
+	return string(b)
+}
+
+var foreign = []byte{'0', 'O', 'I', 'l', ' ', '+', '-', '_', '/', 0, 0x7f, 0x80, 0xff, '\n'}
+
+// edits: every single-character substitution, deletion and insertion of enc. The oracle sees
+// all of them; a random subset becomes Coq cases.
+func (d *drv) edits(enc string, a []byte, perKind int) {
+	c := d.c
+	var subs, dels, inss []string
+	for i := 0; i < len(enc); i++ {
+		for k := 0; k < 58; k++ {
+			if alphabet[k] != enc[i] {
+				subs = append(subs, enc[:i]+string(alphabet[k])+enc[i+1:])
+			}
+		}
+		for _, f := range foreign {
+			subs = append(subs, enc[:i]+string([]byte{f})+enc[i+1:])
+		}
+		dels = append(dels, enc[:i]+enc[i+1:])
+	}
+	for i := 0; i <= len(enc); i++ {
+		for k := 0; k < 58; k++ {
+			inss = append(inss, enc[:i]+string(alphabet[k])+enc[i:])
+		}
+	}
+	run := func(kind string, l []string, n int) {
+		pick := map[int]bool{}
+		for len(pick) < n && len(pick) < len(l) {
+			pick[c.Intn(len(l))] = true
+		}
+		for i, s := range l {
+			if s == enc {
+				continue
+			}
+			if pick[i] {
+				d.probeStr(s, kind, a, false)
+			} else {
+				d.oracleOnly(s, kind, a)
+			}
+		}
+	}
+	run("edit-subst", subs, perKind)
+	run("edit-delete", dels, perKind/2)
+	run("edit-insert", inss, perKind/2)
+	// transposition of neighbours
+	for i := 0; i+1 < len(enc); i++ {
+		if enc[i] != enc[i+1] {
+			b := []byte(enc)
+			b[i], b[i+1] = b[i+1], b[i]
+			d.oracleOnly(string(b), "edit-swap", a)
+		}
+	}
+}
+
+// oracleOnly: the property on the implementation, no Coq case.
+func (d *drv) oracleOnly(s, kind string, orig []byte) {
+	c := d.c
+	c.Eval()
+	var got common.Address
+	var err error
+	p, msg := hx.Recover(func() { got, err = common.AddressFromBase58(s) })
+	in := input{Kind: "b58", S: hx.Hex([]byte(s)), Note: kind}
+	if p {
+		c.Fail("b58:panic", "AddressFromBase58 panicked", in, msg, "an address or an error")
+		return
+	}
+	c.Count("oracle-only:" + kind)
+	if err != nil {
+		return
+	}
+	if refEncode(refPayload(23, got[:])) != s {
+		c.Fail("b58:accepts-noncanonical", "a string that is not the canonical encoding of any address is accepted", in,
+			map[string]interface{}{"decoded": hx.Hex(got[:])}, "error")
+	}
+	if orig != nil && bytes.Equal(orig, got[:]) {
+		c.Fail("b58:accepts-corrupted", "a corrupted encoding decodes to the original address", in,
+			map[string]interface{}{"decoded": hx.Hex(got[:])}, "error")
+	}
+}
+
+// structured corruptions built with the independent encoder
+func (d *drv) structured(a []byte) {
+	c := d.c
+	good := refPayload(23, a)
+	// other version bytes, checksum correct for that version
+	for _, v := range []byte{0, 1, 22, 24, 255, byte(c.Intn(256))} {
+		if v != 23 {
+			d.probeStr(refEncode(refPayload(v, a)), "wrong-version", a, false)
+		}
+	}
+	// checksum computed with the right version but the version byte replaced afterwards
+	p := append([]byte{}, good...)
+	p[0] = 24
+	d.probeStr(refEncode(p), "wrong-version", a, false)
+	// wrong checksum: each checksum byte changed, random checksum, single sha256 instead of double
+	for i := 21; i < 25; i++ {
+		p = append([]byte{}, good...)
+		p[i] ^= byte(1 << uint(c.Intn(8)))
+		d.probeStr(refEncode(p), "wrong-checksum", a, false)
+	}
+	p = append(append([]byte{23}, a...), c.Bytes(4)...)
+	d.probeStr(refEncode(p), "wrong-checksum", a, false)
+	p = append(append([]byte{23}, a...), sum(append([]byte{23}, a...))[:4]...)
+	d.probeStr(refEncode(p), "wrong-checksum", a, false)
+	// address byte changed, checksum kept
+	p = append([]byte{}, good...)
+	p[1+c.Intn(20)] ^= byte(1 << uint(c.Intn(8)))
+	d.probeStr(refEncode(p), "wrong-checksum", a, false)
+	// other payload lengths: 19- and 21-byte "addresses", checksum dropped / extended
+	d.probeStr(refEncode(refPayload(23, a[:19])), "wrong-length", a, false)
+	d.probeStr(refEncode(refPayload(23, append(append([]byte{}, a...), byte(c.Intn(256))))), "wrong-length", a, false)
+	d.probeStr(refEncode(good[:21]), "wrong-length", a, false)
+	d.probeStr(refEncode(append(append([]byte{}, good...), 0)), "wrong-length", a, false)
+	// extra leading '1' characters (the value is unchanged; only the re-encode comparison rejects)
+	enc := refEncode(good)
+	for _, k := range []int{1, 2, 5, 1 + c.Intn(40)} {
+		d.probeStr(strings.Repeat("1", k)+enc, "leading-ones", a, false)
+	}
+	// surrounding junk
+	d.probeStr(enc+" ", "junk", a, false)
+	d.probeStr(" "+enc, "junk", a, false)
+	d.probeStr(enc+"\n", "junk", a, false)
+	d.probeStr(enc+enc, "junk", a, false)
+	d.probeStr(strings.ToLower(enc), "junk", a, false)
+	d.probeStr(strings.ToUpper(enc), "junk", a, false)
+}
+
+func (d *drv) randomStrings(n int) {
+	c := d.c
+	for i := 0; i < n; i++ {
+		switch c.Intn(8) {
+		case 0: // any length over the alphabet
+			d.probeStr(d.randAlpha(c.Intn(45)), "random-alphabet", nil, false)
+		case 1, 2: // right length, right first character: mostly version 23, fails only at the comparison
+			d.probeStr("A"+d.randAlpha(33), "random-A34", nil, false)
+		case 3: // 33..35 characters
+			d.probeStr(d.randAlpha(33+c.Intn(3)), "random-alphabet", nil, false)
+		case 4: // one foreign character in an alphabet string
+			b := []byte(d.randAlpha(1 + c.Intn(40)))
+			b[c.Intn(len(b))] = foreign[c.Intn(len(foreign))]
+			d.probeStr(string(b), "random-foreign", nil, false)
+		case 5: // arbitrary bytes
+			d.probeStr(string(c.Bytes(c.Intn(40))), "random-bytes", nil, false)
+		case 6: // a 25-byte number with version 23 and random rest
+			d.probeStr(refEncode(append([]byte{23}, c.Bytes(24)...)), "random-v23", nil, false)
+		default: // leading '1's then alphabet
+			d.probeStr(strings.Repeat("1", 1+c.Intn(4))+d.randAlpha(c.Intn(36)), "random-ones", nil, false)
+		}
+	}
+}
+
+func (d *drv) boundaries(a []byte) {
+	enc := refEncode(refPayload(23, a))
+	d.probeStr("", "empty", nil, false)
+	for _, s := range []string{"1", "11", "111", "1111111111111111111111111111111111", "2", "12", "z", "A"} {
+		d.probeStr(s, "tiny", nil, false)
+	}
+	// around the 2048 guard: valid encoding behind leading '1's, and plain alphabet strings
+	for _, n := range []int{2047, 2048, 2049, 3000} {
+		d.probeStr(strings.Repeat("1", n-len(enc))+enc, fmt.Sprintf("len-%d", n), a, false)
+	}
+	d.probeStr(d.randAlpha(2048), "len-2048", nil, false)
+	d.probeStr(d.randAlpha(2049), "len-2049", nil, false)
+	d.probeStr(strings.Repeat("z", 2048), "len-2048", nil, false)
+	d.probeStr(strings.Repeat("1", 2048), "len-2048", nil, false)
+	d.probeStr(strings.Repeat("1", 2049), "len-2049", nil, false)
+}
+
+func (d *drv) hexStrings(a []byte, hs string, n int) {
+	c := d.c
+	d.probeHexStr(strings.ToUpper(hs), "upper")
+	mixed := []byte(hs)
+	for i := range mixed {
+		if c.Intn(2) == 0 {
+			mixed[i] = strings.ToUpper(string(mixed[i]))[0]
+		}
+	}
+	d.probeHexStr(string(mixed), "mixed-case")
+	d.probeHexStr(hs[:39], "odd")
+	d.probeHexStr(hs[:38], "short")
+	d.probeHexStr(hs+"00", "long")
+	d.probeHexStr("0x"+hs, "prefix")
+	d.probeHexStr("", "empty")
+	d.probeHexStr(hx.Hex(a), "unreversed")
+	for i := 0; i < n; i++ {
+		b := []byte(hs)
+		switch c.Intn(4) {
+		case 0: // a non-hex character somewhere
+			b[c.Intn(len(b))] = "gGzZ xX-_:\x00\x80\xff/@`"[c.Intn(16)]
+			d.probeHexStr(string(b), "bad-char")
+		case 1: // odd length with a bad last character (reported as bad character, not as length)
+			b = append(b[:1+2*c.Intn(19)], 'g')
+			d.probeHexStr(string(b), "odd-bad-last")
+		case 2:
+			d.probeHexStr(hx.Hex(c.Bytes(c.Intn(24))), "random-hex")
+		default:
+			d.probeHexStr(string(c.Bytes(c.Intn(44))), "random-bytes")
+		}
+	}
+}
+
+func (d *drv) libCases(n int) {
+	c := d.c
+	digits := func(k int) []byte {
+		b := make([]byte, k)
+		for i := range b {
+			b[i] = byte('0' + c.Intn(10))
+		}
+		return b
+	}
+	for _, s := range []string{"", "0", "00", "000", "1", "57", "58", "59", "3364", "0058", "9", "12a", "a", " 1", "1 ", "1_0", "0x10", "१"} {
+		d.probeLib("enc", []byte(s))
+		d.probeLib("bigstr", []byte(s))
+	}
+	for _, s := range []string{"", "1", "11", "111", "2", "12", "21", "112", "z", "1z", "0", "O", "1O", "I1", "l", "zzzzzzzzzzz"} {
+		d.probeLib("dec", []byte(s))
+	}
+	for i := 0; i < n; i++ {
+		s := digits(1 + c.Intn(70))
+		for j, z := 0, c.Intn(4); j < z && j < len(s); j++ {
+			s[j] = '0'
+		}
+		if c.Intn(10) == 0 {
+			s[c.Intn(len(s))] = "aA_ .:/"[c.Intn(7)]
+		}
+		d.probeLib("enc", s)
+		d.probeLib("bigstr", s)
+		t := strings.Repeat("1", c.Intn(4)) + d.randAlpha(c.Intn(40))
+		if c.Intn(10) == 0 && len(t) > 0 {
+			b := []byte(t)
+			b[c.Intn(len(b))] = foreign[c.Intn(len(foreign))]
+			t = string(b)
+		}
+		d.probeLib("dec", []byte(t))
+		b := c.Bytes(c.Intn(30))
+		for j, z := 0, c.Intn(4); j < z && j < len(b); j++ {
+			b[j] = 0
+		}
+		d.probeLib("big", b)
+	}
+}
+
+func (d *drv) replayOne(in input) {
+	b := hx.UnHex(in.S)
+	switch in.Kind {
+	case "addr":
+		if len(b) == 20 {
+			d.probeAddr(b, "replay", false)
+			d.probeAddr(b, "replay", true)
+		}
+	case "b58":
+		d.probeStr(string(b), "replay", nil, false)
+	case "hexaddr":
+		if len(b) == 20 {
+			d.probeHexAddr(b)
+		}
+	case "hex":
+		d.probeHexStr(string(b), "replay")
+	case "parse":
+		d.probeParse(b)
+	case "enc", "dec", "big", "bigstr":
+		d.probeLib(in.Kind, b)
+	}
+}
+
+func Run(c *hx.Ctx) {
+	c.CoqModule("Corr.C22")
+	d := &drv{c: c, caseCap: map[string]int{}}
+	var in input
+	if c.ReplayInput(&in) {
+		d.replayOne(in)
+		return
+	}
+	for _, raw := range c.CorpusInputs() {
+		var ci input
+		if json.Unmarshal(raw, &ci) == nil {
+			d.replayOne(ci)
+		}
+	}
+	d.caseCap["sha"] = c.N(8, 40)
+
+	// fixed and boundary addresses
+	fixed := [][]byte{make([]byte, 20), bytes.Repeat([]byte{0xff}, 20)}
+	for i := 1; i <= 9; i++ { // native contract addresses 00..01 .. 00..09
+		a := make([]byte, 20)
+		a[19] = byte(i)
+		fixed = append(fixed, a)
+	}
+	for _, a := range fixed {
+		enc := d.probeAddr(a, "fixed", false)
+		if enc != "" {
+			d.probeStr(enc, "valid", nil, false)
+		}
+		d.probeHexAddr(a)
+	}
+	// the real SHA-256 of Lib/Sha256.v on a few addresses and strings
+	for i := 0; i < c.N(2, 10); i++ {
+		a := d.randAddr()
+		if enc := d.probeAddr(a, "sha", true); enc != "" {
+			d.probeStr(enc, "valid-sha", nil, true)
+			b := []byte(enc)
+			j := 2 + c.Intn(len(b)-2)
+			b[j] = alphabet[(strings.IndexByte(alphabet, b[j])+1+c.Intn(57))%58]
+			d.probeStr(string(b), "edit-sha", a, true)
+		}
+	}
+	// random addresses: encode, decode, hex
+	nAddr := c.N(120, 1500)
+	var last []byte
+	var lastHex string
+	for i := 0; i < nAddr; i++ {
+		a := d.randAddr()
+		enc := d.probeAddr(a, "random", false)
+		if enc != "" {
+			d.probeStr(enc, "valid", nil, false)
+		}
+		lastHex = d.probeHexAddr(a)
+		if lastHex != "" {
+			d.probeHexStr(lastHex, "valid")
+		}
+		last = a
+	}
+	// every single-character edit of some valid strings
+	for i := 0; i < c.N(6, 40); i++ {
+		a := d.randAddr()
+		if i == 0 {
+			a = fixed[2]
+		}
+		var addr common.Address
+		copy(addr[:], a)
+		enc := ""
+		hx.Recover(func() { enc = addr.ToBase58() })
+		if enc == "" {
+			continue
+		}
+		d.edits(enc, a, c.N(24, 120))
+		d.structured(a)
+	}
+	d.randomStrings(c.N(200, 3000))
+	d.boundaries(last)
+	if lastHex != "" {
+		d.hexStrings(last, lastHex, c.N(60, 600))
+	}
+	for _, n := range []int{0, 1, 19, 20, 21, 25, 32} {
+		d.probeParse(c.Bytes(n))
+	}
+	d.libCases(c.N(60, 600))
+}
